@@ -1,8 +1,18 @@
-(* C04 - single linkage is exact (PARTIAL: bit-exactness - single linkage only
-   ever reports input entries - and order-only dependence are theorems; "cuts =
-   threshold components" and "heights = MST weights" are not yet proved). *)
-Require Import KV.Model.Prelude KV.Model.Methods KV.Model.State KV.Model.Dendrogram
-  KV.Model.Linkage KV.Model.History KV.Proofs.OrderOnly.
+(* C04 - single linkage is exact.
+   Theorems: (1) bit-exactness - single linkage only ever reports input entries
+   (all entry points); (2) mst_with (= linkage with Method::Single) is Prim's
+   algorithm: every recorded step attaches an outside observation at the
+   weight of a minimum edge crossing the cut; (3) cuts = threshold components,
+   for the raw steps and for the RETURNED dendrogram with its labels, for every
+   threshold; (4) the same min-over-cross-pairs characterisation for
+   primitive (C02_single_run).
+   Not theorems: that the Prim weights are the weight multiset of a minimum
+   spanning tree (the classical cut property; (3) is the characterisation used
+   instead), and (2)-(3) for nnchain/generic with Method::Single. *)
+Require Import KV.Model.Prelude KV.Model.Condensed KV.Model.Methods KV.Model.State KV.Model.Dendrogram
+  KV.Model.Mst KV.Model.Linkage KV.Model.History KV.Proofs.OrderOnly KV.Proofs.ActiveRefine KV.Proofs.SortProofs
+  KV.Proofs.RelabelWF KV.Proofs.PrimThreshold KV.Proofs.MstPrim KV.Proofs.MstCuts.
+From Coq Require Import Permutation Relations.
 
 (* every reported dissimilarity (and every cell left in the matrix) of single
    (and complete) linkage, through every entry point and from any scratch
@@ -15,3 +25,88 @@ Theorem C04_heights_are_input_entries : forall (T : Type) (V : T -> Prop) (F : f
   out_in_V V (out_of (run_with F p a meth s d m n)).
 Proof. exact selection_closed. Qed.
 Print Assumptions C04_heights_are_input_entries.
+
+(* ---- Prim's algorithm ---- *)
+(* reading of a Prim trace (pinned so that the definition cannot drift): the
+   step attaches x, recorded against the previously attached vertex c, at a
+   weight v that is attained by an edge from the tree to x and is not above
+   any edge from the tree to the outside *)
+Theorem C04_ptrace_inv : forall (T : Type) (ltb : T -> T -> bool) (d0 : nat -> nat -> T)
+  Tr c L st rest, ptrace ltb d0 Tr c L (st :: rest) ->
+  exists x v sz, st = step_new x c v sz /\ In x L
+    /\ (exists t, In t Tr /\ v = d0 t x)
+    /\ (forall t y, In t Tr -> In y L -> ltb (d0 t y) v = false)
+    /\ ptrace ltb d0 (x :: Tr) x (without x L) rest.
+Proof.
+  intros T ltb d0 Tr c L st rest H. inversion H; subst.
+  eexists _, _, _. split; [reflexivity|]. repeat (split; [assumption|]). assumption.
+Qed.
+Print Assumptions C04_ptrace_inv.
+
+Theorem C04_mst_is_prim : forall (T : Type) (K : kops T) (p : profile),
+  (forall a, k_ltb K a a = false) ->
+  (forall a b c, k_ltb K a b = true -> k_ltb K b c = true -> k_ltb K a c = true) ->
+  (forall a b c, k_ltb K a b = false -> k_ltb K b c = false -> k_ltb K a c = false) ->
+  forall s d m n s' d' m' M0,
+  mst_with K p s d m n = Ok (s', d', m') ->
+  prologue p m n = Ok M0 ->
+  (forall x y, x <> y -> x < m_obs M0 -> y < m_obs M0 -> k_ltb K (dcell K M0 x y) (k_inf K) = true) ->
+  exists raw,
+    ptrace (k_ltb K) (dcell K M0) [0] 0 (seq 1 (m_obs M0 - 1)) raw
+    /\ length raw = m_obs M0 - 1
+    /\ Permutation (heights d') (map (@s_dis T) raw).
+Proof. exact mst_prim. Qed.
+Print Assumptions C04_mst_is_prim.
+
+(* ---- cuts = threshold components ---- *)
+(* abstract: any Prim trace, any threshold *)
+Theorem C04_prim_threshold : forall (T : Type) (ltb : T -> T -> bool),
+  (forall a b c, ltb a b = false -> ltb b c = false -> ltb a c = false) ->
+  forall d0 : nat -> nat -> T, (forall x y, d0 x y = d0 y x) ->
+  forall (t : T) x0 L raw, ptrace ltb d0 [x0] x0 L raw ->
+  forall x y, link ltb t raw x y <-> conn ltb d0 (x0 :: L) t x y.
+Proof. exact threshold_components. Qed.
+Print Assumptions C04_prim_threshold.
+
+(* the returned dendrogram: for EVERY threshold t there is a cut position j
+   (the returned heights are sorted) such that the first j steps are exactly
+   those of height <= t, and applying them - labels as in C01: labi - puts two
+   observations under the same label iff they are connected in the graph that
+   joins observations whose input dissimilarity is <= t *)
+Theorem C04_cuts_are_threshold_components : forall (T : Type) (K : kops T) (p : profile),
+  (forall a, k_ltb K a a = false) ->
+  (forall a b c, k_ltb K a b = true -> k_ltb K b c = true -> k_ltb K a c = true) ->
+  (forall a b c, k_ltb K a b = false -> k_ltb K b c = false -> k_ltb K a c = false) ->
+  (forall a b, k_eqb K a b = true -> k_ltb K b a = false) ->
+  forall s d m n s' d' m' M0,
+  mst_with K p s d m n = Ok (s', d', m') ->
+  prologue p m n = Ok M0 ->
+  (forall x y, x <> y -> x < m_obs M0 -> y < m_obs M0 -> k_ltb K (dcell K M0 x y) (k_inf K) = true) ->
+  forall t : T, exists j, j <= m_obs M0 - 1 /\ cut_at K t j (heights d')
+    /\ forall x y, x < m_obs M0 -> y < m_obs M0 ->
+        (labi (m_obs M0) (d_steps d') j x = labi (m_obs M0) (d_steps d') j y
+         <-> conn (k_ltb K) (dcell K M0) (0 :: seq 1 (m_obs M0 - 1)) t x y).
+Proof. exact mst_cuts_all. Qed.
+Print Assumptions C04_cuts_are_threshold_components.
+
+(* non-vacuity: an integer-valued carrier satisfies all hypotheses, and the
+   model returns Ok on a matrix with ties *)
+Definition KZ : kops Z :=
+  {| k_ltb := Z.ltb; k_eqb := Z.eqb; k_max := 1000000%Z; k_inf := 1000000%Z;
+     k_upd := fun a b _ _ _ _ => if Z.ltb a b then a else b; k_sq := fun x => x; k_rt := fun x => x |}.
+Example C04_hypotheses_satisfiable :
+  (forall a, k_ltb KZ a a = false)
+  /\ (forall a b c, k_ltb KZ a b = true -> k_ltb KZ b c = true -> k_ltb KZ a c = true)
+  /\ (forall a b c, k_ltb KZ a b = false -> k_ltb KZ b c = false -> k_ltb KZ a c = false)
+  /\ (forall a b, k_eqb KZ a b = true -> k_ltb KZ b a = false)
+  /\ exists r M0, mst_with KZ Debug (st_new Z) (d_new Z 0) [3; 1; 4; 1; 5; 9; 2; 6; 5; 3]%Z 5 = Ok r
+        /\ prologue Debug [3; 1; 4; 1; 5; 9; 2; 6; 5; 3]%Z 5 = Ok M0
+        /\ forallb (fun x => forallb (fun y => (x =? y) || Z.ltb (dcell KZ M0 x y) (k_inf KZ)) (seq 0 5)) (seq 0 5) = true.
+Proof.
+  cbn [KZ k_ltb k_eqb].
+  split; [intros a; apply Z.ltb_irrefl|].
+  split; [intros a b c H1 H2; apply Z.ltb_lt in H1, H2; apply Z.ltb_lt; lia|].
+  split; [intros a b c H1 H2; apply Z.ltb_ge in H1, H2; apply Z.ltb_ge; lia|].
+  split; [intros a b H; apply Z.eqb_eq in H; apply Z.ltb_ge; lia|].
+  eexists _, _. split; [vm_compute; reflexivity|]. split; [vm_compute; reflexivity|]. vm_compute. reflexivity.
+Qed.
